@@ -846,6 +846,15 @@ func TestVerifC38(t *testing.T) {
 			case 2: // one element with a space vs two elements; quotes inside an element
 				o1.LargeFiles = []string{"a b", "c"}
 				o2.LargeFiles = [][]string{{"a", "b", "c"}, {"a b c"}, {`a" "b`, "c"}, {`a b" "c`}}[r.Intn(4)]
+				switch r.Intn(3) {
+				case 0: // the same with real patterns and the separators a joined / %v encoding would use (space, comma:
+					// doublestar alternations contain commas), the two lists deciding differently about many.txt
+					o1.LargeFiles = []string{"many.txt big.txt"}
+					o2.LargeFiles = []string{"many.txt", "big.txt"}
+				case 1:
+					o1.LargeFiles = []string{"{many,big}.txt", "!big.txt"}
+					o2.LargeFiles = []string{"{many", "big}.txt,!big.txt"}
+				}
 			case 3: // digits moving between SizeMax and the list / the tail
 				o1.SizeMax, o1.LargeFiles = 12, []string{"3"}
 				o2.SizeMax, o2.LargeFiles = 123, []string{""}
